@@ -5,6 +5,7 @@ Per-iteration evaluation budget: for every optimizer, the objective call sites r
 (and helpers it calls on `self`) with the loop nest around each -> `BudgetTerm`s (Model/Budget.lean).
 Pure `ast`; nothing is imported from the repo.
 """
+import inline
 import ast, os, struct
 
 REPO = os.environ.get('VERIF_REPO', '/repo')
@@ -24,7 +25,7 @@ def body_of(fn):
 
 
 def find_method(path, cls, name):
-    t = ast.parse(open(path).read())
+    t = inline.parse(path)
     for c in t.body:
         if isinstance(c, ast.ClassDef) and c.name == cls:
             for f in c.body:
@@ -39,9 +40,15 @@ def bsrc(expr):
     return {'self.lb': '.lb', 'self.ub': '.ub'}.get(u, '.other')
 
 
-def clip_call(call, fst, snd):
-    """-> (source expr, lo BRef, hi BRef) for np.clip(x, lo, hi) and np.minimum(np.maximum(x, lo), hi)"""
+def clip_call(call, fst, snd, idx=None):
+    """-> (source expr, lo BRef, hi BRef) for np.clip(x, lo, hi) and np.minimum(np.maximum(x, lo), hi);
+    `fst`/`snd` are the names bound to the zipped pair, or (with `idx`) the two sequences indexed by the loop variable"""
     def bref(n):
+        if idx is not None and isinstance(n, ast.Subscript) and ast.unparse(n.slice) == idx:
+            if ast.unparse(n.value) == fst and fst != snd:
+                return '.zipFst'
+            if ast.unparse(n.value) == snd and fst != snd:
+                return '.zipSnd'
         if isinstance(n, ast.Name) and n.id == fst and fst != snd:
             return '.zipFst'
         if isinstance(n, ast.Name) and n.id == snd and fst != snd:
@@ -63,6 +70,9 @@ def clip_call(call, fst, snd):
         if len(args) == 1 and set(kw) == {'a_min', 'a_max'}:
             return args[0], bref(kw['a_min']), bref(kw['a_max'])
         return None
+    if isinstance(call.func, ast.Attribute) and call.func.attr == 'clip' and f != 'np.clip' and len(call.args) == 2 and not call.keywords:
+        # ndarray.clip(lo, hi) is what np.clip dispatches to
+        return call.func.value, bref(call.args[0]), bref(call.args[1])
     if f == 'np.minimum' and len(call.args) == 2 and not call.keywords:
         inner, hi = call.args
         if isinstance(inner, ast.Call) and ast.unparse(inner.func) == 'np.maximum' and len(inner.args) == 2 and not inner.keywords:
@@ -99,11 +109,24 @@ def read_clip(fn):
     ok_tg = (isinstance(tg, ast.Tuple) and len(tg.elts) == 2 and isinstance(tg.elts[0], ast.Name)
              and isinstance(tg.elts[1], ast.Tuple) and len(tg.elts[1].elts) == 2
              and all(isinstance(e, ast.Name) for e in tg.elts[1].elts))
-    if not (ok_iter and ok_tg):
+    idx = None
+    # the same rows by index: `for j in range(min(len(x), len(y)))` with bounds written `x[j]`, `y[j]` or literals
+    rng_form = (isinstance(it, ast.Call) and ast.unparse(it.func) == 'range' and len(it.args) == 1 and not it.keywords
+                and isinstance(it.args[0], ast.Call) and ast.unparse(it.args[0].func) == 'min' and len(it.args[0].args) == 2
+                and all(isinstance(a, ast.Call) and ast.unparse(a.func) == 'len' and len(a.args) == 1 for a in it.args[0].args)
+                and isinstance(tg, ast.Name))
+    if rng_form:
+        j = tg.id
+        idx = j
+        x_, y_ = it.args[0].args[0].args[0], it.args[0].args[1].args[0]
+        fst, snd = ast.unparse(x_), ast.unparse(y_)
+        zl, zr = bsrc(x_), bsrc(y_)
+    elif not (ok_iter and ok_tg):
         return bad('row loop is not `for j, (a, b) in enumerate(zip(x, y))`')
-    j = tg.elts[0].id
-    fst, snd = tg.elts[1].elts[0].id, tg.elts[1].elts[1].id
-    zl, zr = bsrc(it.args[0].args[0]), bsrc(it.args[0].args[1])
+    else:
+        j = tg.elts[0].id
+        fst, snd = tg.elts[1].elts[0].id, tg.elts[1].elts[1].id
+        zl, zr = bsrc(it.args[0].args[0]), bsrc(it.args[0].args[1])
     body = body_of(lp)
     assigns = [s for s in body if isinstance(s, ast.Assign) and len(s.targets) == 1]
     extra += len(body) - 1
@@ -111,7 +134,7 @@ def read_clip(fn):
         return bad('row loop body is not one assignment')
     a = assigns[0]
     row = f'{owner}.position[{j}]'
-    cc = clip_call(a.value, fst, snd)
+    cc = clip_call(a.value, fst, snd, idx)
     if cc is None:
         return bad('value is not a clip')
     src, lo, hi = cc
@@ -176,7 +199,7 @@ def extract_bound_writes():
     files = ['core/agent.py', 'core/space.py', 'spaces/search.py', 'spaces/hyper.py', 'spaces/tree.py']
     for fl in files:
         try:
-            t = ast.parse(open(f'{REPO}/opytimizer/{fl}').read())
+            t = inline.parse(f'{REPO}/opytimizer/{fl}')
         except OSError:
             out.append((fl, '?', 'file missing', ''))
             continue
@@ -253,7 +276,7 @@ def _classes():
     for fl in OPT_FILES + ['../core/optimizer']:
         path = os.path.normpath(f'{REPO}/opytimizer/optimizers/{fl}.py')
         try:
-            t = ast.parse(open(path).read())
+            t = inline.parse(path)
         except OSError:
             continue
         for c in t.body:
